@@ -24,36 +24,41 @@ SMaxArgs == SMaxNat \cup {-1}
 DefaultIdLen == 30        \* genc.c: static int gcvIdLen = 30
 DefaultSMax  == 0         \* genc.c: static int gcvSMax = 0
 
-VARIABLES std, lines, idhash, idlen, smax, opts
-vars == <<std, lines, idhash, idlen, smax, opts>>
+VARIABLES std, lines, idhash, idlen, smax, debug, opts
+vars == <<std, lines, idhash, idlen, smax, debug, opts>>
 
 Init == /\ std = "unset" /\ lines = FALSE /\ idhash = TRUE
-        /\ idlen = DefaultIdLen /\ smax = DefaultSMax /\ opts = <<>>
+        /\ idlen = DefaultIdLen /\ smax = DefaultSMax /\ debug = FALSE /\ opts = <<>>
 
 Num(n) == IF n < 0 THEN "-" \o ToString(-n) ELSE ToString(n)
-GroupOf(o) == CASE o \in {"-Cstandard", "-Cold"} -> 1
+GroupOf(o) == CASE o = "-Zdb" -> 0
+                [] o \in {"-Cstandard", "-Cold"} -> 1
                 [] o \in {"-Clines", "-Cno-lines"} -> 4
                 [] o \in {"-Cidhash", "-Cno-idhash"} -> 5
                 [] \E n \in SMaxArgs : o = "-Csmax=" \o Num(n) -> 3
                 [] OTHER -> 2
 (* every sequence up to FreeLen options is explored, longer ones only in the canonical order of the *)
-(* groups (std, idlen, smax, lines, idhash), one option per group: the product C16 names             *)
+(* groups (-Zdb, std, idlen, smax, lines, idhash), one option per group: the product C16 names       *)
 CanonicalSeq(s) == \A i \in 1..(Len(s) - 1) : GroupOf(s[i]) < GroupOf(s[i + 1])
 Room(o) == Len(opts) < MaxOpts /\ (Len(opts) < FreeLen \/ CanonicalSeq(Append(opts, o)))
 
 SetStd(b)    == Room(IF b THEN "-Cstandard" ELSE "-Cold") /\ std' = (IF b THEN "standard" ELSE "old")
-                /\ opts' = Append(opts, IF b THEN "-Cstandard" ELSE "-Cold") /\ UNCHANGED <<lines, idhash, idlen, smax>>
+                /\ opts' = Append(opts, IF b THEN "-Cstandard" ELSE "-Cold") /\ UNCHANGED <<lines, idhash, idlen, smax, debug>>
 SetLines(b)  == Room(IF b THEN "-Clines" ELSE "-Cno-lines") /\ lines' = b
-                /\ opts' = Append(opts, IF b THEN "-Clines" ELSE "-Cno-lines") /\ UNCHANGED <<std, idhash, idlen, smax>>
+                /\ opts' = Append(opts, IF b THEN "-Clines" ELSE "-Cno-lines") /\ UNCHANGED <<std, idhash, idlen, smax, debug>>
 SetIdHash(b) == Room(IF b THEN "-Cidhash" ELSE "-Cno-idhash") /\ idhash' = b
-                /\ opts' = Append(opts, IF b THEN "-Cidhash" ELSE "-Cno-idhash") /\ UNCHANGED <<std, lines, idlen, smax>>
+                /\ opts' = Append(opts, IF b THEN "-Cidhash" ELSE "-Cno-idhash") /\ UNCHANGED <<std, lines, idlen, smax, debug>>
 (* genCSetSMax / genCSetIdLen: a negative argument becomes 1 *)
 SetSMax(n)   == Room("-Csmax=" \o Num(n)) /\ smax' = (IF n < 0 THEN 1 ELSE n)
-                /\ opts' = Append(opts, "-Csmax=" \o Num(n)) /\ UNCHANGED <<std, lines, idhash, idlen>>
+                /\ opts' = Append(opts, "-Csmax=" \o Num(n)) /\ UNCHANGED <<std, lines, idhash, idlen, debug>>
 SetIdLen(n)  == Room("-Cidlen=" \o Num(n)) /\ idlen' = (IF n < 0 THEN 1 ELSE n)
-                /\ opts' = Append(opts, "-Cidlen=" \o Num(n)) /\ UNCHANGED <<std, lines, idhash, smax>>
+                /\ opts' = Append(opts, "-Cidlen=" \o Num(n)) /\ UNCHANGED <<std, lines, idhash, smax, debug>>
+
+(* -Zdb (cmdline.c:cmdDoOptDebug -> emit.c:emitSetDebug): line numbers reach the C only if this is on too *)
+SetDebug     == Room("-Zdb") /\ debug' = TRUE /\ opts' = Append(opts, "-Zdb") /\ UNCHANGED <<std, lines, idhash, idlen, smax>>
 
 Next == \/ \E b \in BOOLEAN : SetStd(b) \/ SetLines(b) \/ SetIdHash(b)
+        \/ SetDebug
         \/ \E n \in SMaxArgs : SetSMax(n)
         \/ \E n \in IdLenArgs : SetIdLen(n)
 
@@ -61,6 +66,8 @@ Next == \/ \E b \in BOOLEAN : SetStd(b) \/ SetLines(b) \/ SetIdHash(b)
 StdC == IF std = "unset" THEN ConfStdC ELSE std = "standard"
 (* what C16 quantifies over: hashed global names, a limit that is no limit or at least the default *)
 InScope == idhash /\ (idlen = 0 \/ idlen >= DefaultIdLen)
+(* emit.c:emitTheC: ccmode |= emitDoLineNos && ccLineNos() -- `-Clines' alone changes nothing *)
+EffLines == lines /\ debug
 (* splitting happens only with a positive statement limit (gc0OverSMax) *)
 MaySplit == smax > 0
 
@@ -76,7 +83,7 @@ Group(o) == GroupOf(o)
 Canonical == CanonicalSeq(opts)
 Override  == Len(opts) = 2 /\ Group(opts[1]) = Group(opts[2])
 
-Config == [opts |-> opts, std |-> StdC, lines |-> lines, idhash |-> idhash, idlen |-> idlen, smax |-> smax,
+Config == [opts |-> opts, std |-> StdC, lines |-> lines, debug |-> debug, efflines |-> EffLines, idhash |-> idhash, idlen |-> idlen, smax |-> smax,
            inscope |-> InScope, canonical |-> Canonical, files3 |-> FileNames("p", "p", IF MaySplit THEN 3 ELSE 1)]
 Export == (Canonical \/ Override) /\ PrintT("CONFIG " \o ToJson(Config)) /\ UNCHANGED vars
 
@@ -90,6 +97,7 @@ LastOf(g) == LET is == {i \in 1..Len(opts) : Group(opts[i]) = g} IN IF is = {} T
 LastWins ==
   /\ StdC = (IF LastOf(1) = "" THEN ConfStdC ELSE LastOf(1) = "-Cstandard")
   /\ lines = (LastOf(4) = "-Clines")
+  /\ debug = (LastOf(0) = "-Zdb")
   /\ idhash = (LastOf(5) # "-Cno-idhash")
   /\ (LastOf(2) = "" => idlen = DefaultIdLen) /\ (LastOf(3) = "" => smax = DefaultSMax)
   /\ \A n \in IdLenArgs : LastOf(2) = "-Cidlen=" \o Num(n) => idlen = (IF n < 0 THEN 1 ELSE n)
